@@ -127,3 +127,15 @@ Proof. exact stencil_lengths. Qed.
 
 Print Assumptions C06_ddx_face_values_exact_on_affine.
 Print Assumptions C06_ddx_single_valued_at_shared_faces.
+
+(* zShift at the contour's own points (theories/Proof_ZMono.v): inside the range numpy.interp returns the chord value of the segment
+   that contains the point, and for a field of one sign zShift does not decrease from a contour point to a later one -- wherever the
+   points lie between the fine points *)
+From HT Require Import Proof_InterpMono Proof_ZMono.
+Theorem C06_monotone_along_the_contour : forall base ys fdist si s1 s2 v1 v2,
+  length ys = length fdist -> (2 <= length ys)%nat -> incr fdist -> (si < length ys)%nat ->
+  (forall k, (k < length ys)%nat -> 0 < nth k ys 0) ->
+  nth 0 fdist 0 <= s1 -> s1 < s2 -> s2 <= last fdist 0 ->
+  zshift_contour Rops base ys fdist si [s1; s2] = Some [v1; v2] -> v1 <= v2.
+Proof. exact zshift_contour_monotone. Qed.
+Print Assumptions C06_monotone_along_the_contour.
